@@ -172,6 +172,29 @@ __CPROVER_decreases(Q_len)
     canaries=[dict(name="skips_right_neighbour", where="body:si_checkMotion", rx=r"x\.second > mid \+ 1", repl="x.second > mid + 2")],
 ))
 
+# ---- the segment count itself (StateSpace.cpp) ----
+SSF = "src/ompl/base/src/StateSpace.cpp"
+VSC_SRC = [
+    dict(name="vsc", file=SSF, sig=r"unsigned int ompl::base::StateSpace::validSegmentCount\(const State \*state1, const State \*state2\) const",
+         rules=[(r"\(unsigned int\)\s*ceil\(distance\(state1, state2\) / longestValidSegment_\)", "CEILU(FDIVD(distance(state1, state2), longestValidSegment_))", 0)], loops={}),
+    dict(name="compound_vsc", file=SSF, sig=r"unsigned int ompl::base::CompoundStateSpace::validSegmentCount\(const State \*state1, const State \*state2\) const",
+         rules=[(r"const auto \*cstate(\d) = static_cast<const CompoundState \*>\(state\1\);", r"const CompoundState *cstate\1 = state\1;", 0),
+                (r"components_\[i\]->validSegmentCount\(", "comp_vsc(i, ", 0)],
+         loops={1: """
+__CPROVER_assigns(i, sc, comp_calls_G, seen_V)
+__CPROVER_loop_invariant(i <= componentCount_ && comp_calls_G == ((G < i) ? 1 : 0))
+__CPROVER_loop_invariant((G < i) ==> sc >= SC[G])
+__CPROVER_loop_invariant(sc == V ==> (seen_V || V == 0))
+__CPROVER_decreases(componentCount_ - i)
+"""}),
+]
+UNITS.append(dict(name="c05_validSegmentCount", template="C05/vsc.c", entry="h_vsc", sources=VSC_SRC, enforce=["vsc"], replace=["distance", "FDIVD", "CEILU"], backend="cadical", timeout=300,
+                  loop_contracts=False, functions=["ompl::base::StateSpace::validSegmentCount"],
+                  canaries=[dict(name="rounds_down", where="body:vsc", rx=r"CEILU\(", repl="(unsigned)("), dict(name="factor_dropped", where="body:vsc", rx=r"longestValidSegmentCountFactor_ \*", repl="")]))
+UNITS.append(dict(name="c05_compound_validSegmentCount", template="C05/vsc.c", entry="h_compound_vsc", sources=VSC_SRC, enforce=["compound_vsc"], replace=["comp_vsc"], backend="minisat", timeout=300,
+                  expect_loops=1, functions=["ompl::base::CompoundStateSpace::validSegmentCount"], confirm=dict(unwind=10, defines={}),
+                  canaries=[dict(name="keeps_the_minimum", where="body:compound_vsc", rx=r"sci > sc", repl="sci < sc"), dict(name="skips_last_component", where="body:compound_vsc", rx=r"i < componentCount_", repl="i + 1 < componentCount_")]))
+
 ASSUMPTIONS = [
     "s1 is valid (documented precondition of checkMotion); validity checker and interpolate are deterministic user callbacks",
     "0 <= validSegmentCount <= 1e9 (so that int arithmetic on indices cannot overflow)",
@@ -186,7 +209,7 @@ TRUSTED = [
     "assumed contract on std::queue<std::pair<int,int>> (units/C05/queue.h): multiset-of-intervals abstraction relative to the ghost index, FIFO order forgotten",
     "CBMC 6.11 goto-instrument DFCC + kissat",
 ]
-NOT_COVERED = []
+NOT_COVERED = ["StateSpace::validSegmentCount: the arithmetic of distance / longestValidSegment_ and ceil is behind recording stubs (the expression tree is what is proved, not its IEEE value)"]
 
 C05_CPPS = ["src/ompl/base/src/DiscreteMotionValidator.cpp", "src/ompl/base/spaces/src/DubinsStateSpace.cpp",
             "src/ompl/base/spaces/src/ReedsSheppStateSpace.cpp", "src/ompl/base/src/SpaceInformation.cpp"]
